@@ -481,6 +481,29 @@ func checkTypestate(w *World, r *Report, la *LockAnalysis) {
 	accesses := collectAccesses(w, la, func(v *types.Var) bool { return tracked[v] })
 	sols := map[*unit]*Sol{}
 	seq := map[string]int{}
+	sites := map[*types.Var]int{}
+	defer func() {
+		// every table Close resets has at least one insertion site that was checked
+		// (two call sites merged into one helper lower the site count, not the coverage)
+		var fs []*types.Var
+		for fv := range resets {
+			if tracked[fv] {
+				fs = append(fs, fv)
+			}
+		}
+		sort.Slice(fs, func(i, j int) bool { return fs[i].Pos() < fs[j].Pos() })
+		for _, fv := range fs {
+			con := "table:" + w.canonField(fv) + "#insertion-sites"
+			if sites[fv] == 0 {
+				if _, isMap := fv.Type().Underlying().(*types.Map); isMap && w.canonName(fv) == "singletons" {
+					continue
+				}
+				r.Undecided("R09.3", con, fv.Pos(), "no insertion into %s was found outside Close: the typestate rule has nothing to check for this table", w.canonField(fv))
+			} else {
+				r.OK("R09.3", con, fv.Pos(), false, "%d insertion site(s) checked", sites[fv])
+			}
+		}
+	}()
 	for _, a := range accesses {
 		if a.Unit == nil || a.Node == nil {
 			continue
@@ -504,6 +527,7 @@ func checkTypestate(w *World, r *Report, la *LockAnalysis) {
 		}
 		base := fmt.Sprintf("%s#%s:%s", a.Unit.name, w.canonName(a.Field), map[bool]string{true: "append", false: "index-assign"}[isAppend])
 		seq[base]++
+		sites[a.Field]++
 		construct := fmt.Sprintf("%s/%d", base, seq[base])
 		// fresh object?
 		if id, ok := unparen(a.Base).(*ast.Ident); ok {
@@ -564,28 +588,7 @@ func checkGoStatements(w *World, r *Report) {
 			}
 			n++
 			construct := fmt.Sprintf("%s#go/%d", fi.Name(), n)
-			lit, ok := unparen(g.Call.Fun).(*ast.FuncLit)
-			if !ok {
-				r.Fail("R09.4", construct, g.Pos(), "go statement starts %s, not a watcher literal", exprStr(g.Call.Fun))
-				return true
-			}
-			okShape := len(lit.Body.List) >= 1
-			var bad string
-			if okShape {
-				es, isE := lit.Body.List[0].(*ast.ExprStmt)
-				if !isE || !isDoneReceive(info, es.X) {
-					bad = "first statement is not a receive from Done() of a context"
-				}
-			}
-			for _, c := range callsIn(lit.Body, true) {
-				cal := callee(info, c)
-				switch {
-				case cal != nil && cal.Name() == "Done" && isNamedType(recvTypeOf(cal), "context", "Context"):
-				case cal != nil && cal.Name() == "Close" && recvNamed(cal) != nil && recvNamed(cal).Obj().Name() == "scope":
-				default:
-					bad = "calls " + exprStr(c.Fun) + " besides Done() and Close()"
-				}
-			}
+			_, _, bad := watcherOf(w, info, g)
 			if bad != "" {
 				r.Fail("R09.4", construct, g.Pos(), "watcher goroutine: %s", bad)
 			} else {
@@ -650,4 +653,74 @@ func anyDisposedTest(info *types.Info, cond ast.Expr) (base string, dead bool, o
 	}
 	d, ok := disposedTest(info, cond, flag)
 	return exprStr(baseExpr), d, ok
+}
+
+// watcherOf recognises a watcher goroutine in either form
+//
+//	go func() { <-ctx.Done(); sc.Close() }()
+//	go sc.closeWhenDone(ctx)   /   go closeWhenDone(ctx, sc)
+//
+// and returns, in the namespace of the function containing the go statement, the
+// context it waits on and the scope it closes. The body may only wait for
+// Done() and call the scope's Close.
+func watcherOf(w *World, info *types.Info, g *ast.GoStmt) (ctxExpr, scopeExpr ast.Expr, bad string) {
+	var body *ast.BlockStmt
+	binfo := info
+	rename := func(e ast.Expr) ast.Expr { return e }
+	if lit, ok := unparen(g.Call.Fun).(*ast.FuncLit); ok {
+		body = lit.Body
+	} else if cal := callee(info, g.Call); cal != nil && w.Decls[cal] != nil {
+		t := w.Decls[cal]
+		body, binfo = t.Decl.Body, t.Pkg.TypesInfo
+		// parameters / receiver of the callee -> argument expressions at the go statement
+		m := map[types.Object]ast.Expr{}
+		var params []*ast.Ident
+		for _, f := range t.Decl.Type.Params.List {
+			params = append(params, f.Names...)
+		}
+		for i, a := range g.Call.Args {
+			if i < len(params) {
+				m[binfo.Defs[params[i]]] = a
+			}
+		}
+		if t.Decl.Recv != nil && len(t.Decl.Recv.List[0].Names) == 1 {
+			if rcv, _, ok := methodCall(g.Call); ok {
+				m[binfo.Defs[t.Decl.Recv.List[0].Names[0]]] = rcv
+			}
+		}
+		rename = func(e ast.Expr) ast.Expr {
+			if o := objOf(binfo, e); o != nil {
+				if a, ok := m[o]; ok {
+					return a
+				}
+			}
+			return nil
+		}
+	} else {
+		return nil, nil, "the go statement starts " + exprStr(g.Call.Fun) + ", which is neither a literal nor a function of the repository"
+	}
+	if len(body.List) == 0 {
+		return nil, nil, "empty watcher"
+	}
+	es, isE := body.List[0].(*ast.ExprStmt)
+	if !isE || !isDoneReceive(binfo, es.X) {
+		return nil, nil, "first statement is not a receive from Done() of a context"
+	}
+	{
+		call := unparen(es.X).(*ast.UnaryExpr).X.(*ast.CallExpr)
+		rcv, _, _ := methodCall(call)
+		ctxExpr = rename(rcv)
+	}
+	for _, c := range callsIn(body, true) {
+		cal := callee(binfo, c)
+		switch {
+		case cal != nil && cal.Name() == "Done" && isNamedType(recvTypeOf(cal), "context", "Context"):
+		case cal != nil && cal.Name() == "Close" && recvNamed(cal) != nil && recvNamed(cal).Obj().Name() == "scope":
+			rcv, _, _ := methodCall(c)
+			scopeExpr = rename(rcv)
+		default:
+			bad = "calls " + exprStr(c.Fun) + " besides Done() and Close()"
+		}
+	}
+	return
 }
